@@ -36,6 +36,16 @@ structure Good (nf : Nat) (extra : Option Nat) (fs : FS) : Prop where
   complete : ∀ f, f < nf → f ∈ visible fs
   fresh : ∀ s ∈ fs.dirs, s < nextSuffix fs
   untouched : ∀ s, s ∉ fs.dirs → fs.seg s = {}
+  /-- every completed flush is served from a segment whose metadata record was built from (at least) that flush -/
+  prov : ∀ f, f < nf → ∃ p ∈ metas fs, f ∈ p.2 ∧ f ∈ segVisible (fs.seg p.1)
+
+/-- a flush of a sealed segment: its segmeta.json line lists it and the segment serves it -/
+theorem meta_sealed {sl cur fs} (F : Frame sl cur fs) {f : Nat} (hm : f ∈ flat sl) :
+    ∃ p ∈ metas fs, f ∈ p.2 ∧ f ∈ segVisible (fs.seg p.1) := by
+  rcases List.mem_flatMap.1 hm with ⟨p, hp, hfp⟩
+  refine ⟨p, ?_, hfp, ?_⟩
+  · unfold metas; rw [F.segmeta_eq]; exact List.mem_append_left _ hp
+  · rw [segOK_visible (F.sealed_ok p hp)]; exact hfp
 
 theorem nodup_prefix_of_range {a b : List Nat} {n : Nat} (h : a ++ b = List.range n) : a.Nodup := by
   have : (a ++ b).Nodup := h ▸ List.nodup_range
@@ -47,7 +57,7 @@ theorem good_a {sl cur fs nf extra} {fls : List Nat} (F : Frame sl cur fs)
     (ids : flat sl ++ fls = List.range nf) (hl : fls = []) : Good nf extra fs := by
   have hv : visible fs = flat sl := by rw [visible_frame F, if_neg hno]; simp [flat]
   have ht : torn fs = [] := by rw [torn_frame F, if_neg hno]
-  refine ⟨?_, ht, ?_, ?_, F.suffix_ok, F.untouched⟩
+  refine ⟨?_, ht, ?_, ?_, F.suffix_ok, F.untouched, ?_⟩
   · rw [hv]; exact nodup_prefix_of_range ids
   · intro f hf
     rw [hv] at hf
@@ -58,16 +68,37 @@ theorem good_a {sl cur fs nf extra} {fls : List Nat} (F : Frame sl cur fs)
     rw [hv]
     have : f ∈ flat sl ++ [] := ids ▸ List.mem_range.2 hf
     simpa using this
+  · intro f hf
+    subst hl
+    have : f ∈ flat sl ++ [] := ids ▸ List.mem_range.2 hf
+    exact meta_sealed F (by simpa using this)
 
 /-- the open segment is adopted and serves `X` = its earlier blocks, possibly with the block in progress -/
 theorem good_b {sl cur fs nf extra} {fls X : List Nat} (F : Frame sl cur fs)
     (hin : cur ∈ fs.dirs) (hp : (fs.seg cur).sfm.parsable = true) (hok : SegOK (fs.seg cur) X)
-    (ids : flat sl ++ fls = List.range nf) (hX : X = fls ∨ (X = fls ++ [nf] ∧ extra = some nf)) :
+    (ids : flat sl ++ fls = List.range nf) (hX : X = fls ∨ (X = fls ++ [nf] ∧ extra = some nf))
+    (hY : ∃ Y, (fs.seg cur).sfm = Sfm.json Y ∧ ∀ f ∈ fls, f ∈ Y) :
     Good nf extra fs := by
   have hv : visible fs = flat sl ++ X := by
     rw [visible_frame F, if_pos ⟨hin, hp⟩, segOK_visible hok]; rfl
   have ht : torn fs = [] := by rw [torn_frame F, if_pos ⟨hin, hp⟩, segOK_torn hok]
-  refine ⟨?_, ht, ?_, ?_, F.suffix_ok, F.untouched⟩
+  refine ⟨?_, ht, ?_, ?_, F.suffix_ok, F.untouched, ?_⟩
+  rotate_right
+  · intro f hf
+    have hm : f ∈ flat sl ++ fls := ids ▸ List.mem_range.2 hf
+    rcases List.mem_append.1 hm with h | h
+    · exact meta_sealed F h
+    · rcases hY with ⟨Y, hY1, hY2⟩
+      refine ⟨(cur, Y), ?_, hY2 f h, ?_⟩
+      · unfold metas
+        rw [sfmAdopted_frame F, if_pos ⟨hin, hp⟩]
+        apply List.mem_append_right
+        simp [hY1, Sfm.blocks]
+      · show f ∈ segVisible (fs.seg cur)
+        rw [segOK_visible hok]
+        rcases hX with e | ⟨e, _⟩
+        · rw [e]; exact h
+        · rw [e]; exact List.mem_append_left _ h
   · rw [hv]
     rcases hX with e | ⟨e, _⟩
     · rw [e, ids]; exact List.nodup_range
